@@ -134,6 +134,18 @@ def programs():
     g1 = T.prog([T.fn("m1", ["a", "b"], ["p"], func_key="G", fname="two_arg_fn")])
     g2 = T.prog([T.fn("m2", ["a", "b"], ["p"], func_key="G", fname="two_arg_fn", rename_in={"a": "b", "b": "a"})])
     yield "swapped-renames-across-graphs", {"g": g1, "h": g2}, [{"a": ["v", 0], "b": ["v", 1]}]
+    # one function behind two nodes that differ ONLY in the signal they emit (same data output, same arguments)
+    e1 = T.prog([T.fn("n1", ["e0"], ["p"], func_key="E", fname="shared_emit_fn", emit=["s1"]), T.fn("w1", ["e0"], ["w0"], wait_for=["s1"])])
+    e2 = T.prog([T.fn("n2", ["e0"], ["p"], func_key="E", fname="shared_emit_fn", emit=["s2"]), T.fn("w2", ["e0"], ["w0"], wait_for=["s2"])])
+    yield "shared-function-different-signals", {"g": e1, "h": e2}, [{"e0": ["v", 0]}]
+    # a SINGLE argument that shares an object internally in one run and is an equal value built from distinct objects in another
+    a1 = T.prog([T.fn("dup", ["e0"], ["d0"], behav={"py": "(e0, e0)"}), T.fn("use", ["d0"], ["u0"], func_key="U", fname="one_arg_fn", behav={"py": "('U', d0)"})])
+    a2 = T.prog([T.fn("dup2", ["e0"], ["d0"], behav={"py": "(e0, tuple(list(e0)))"}), T.fn("use2", ["d0"], ["u0"], func_key="U", fname="one_arg_fn", behav={"py": "('U', d0)"})])
+    yield "single-argument-internal-sharing", {"g": a1, "h": a2}, [{"e0": ["v", 0]}]
+    # nodes built from functools.partial over ONE function with different positionally bound values
+    p2 = T.prog([T.fn("sc2", ["e0"], ["y"], func_key="P", fname="scaled_fn", partial=["k", 2])])
+    p3 = T.prog([T.fn("sc3", ["e0"], ["y"], func_key="P", fname="scaled_fn", partial=["k", 3])])
+    yield "partials-of-one-function", {"g": p2, "h": p3}, [{"e0": ["v", 0]}]
     gg = T.prog(
         [
             T.ifelse("gx", ["e0"], "ta", "tb", func_key="R", fname="shared_gate_fn", behav={"py": "e0[1] == 0"}),
@@ -187,7 +199,7 @@ def model_key(spec, args):
     elif spec["kind"] == "route":
         extra = tuple(spec["targets"])
     ro = spec.get("rename_out") or {}
-    return (spec.get("func_key", spec["id"]), repr(sorted(args.items())), tuple(ro.get(o, o) for o in spec.get("outs", [])), extra)
+    return (spec.get("func_key", spec["id"]), repr(sorted(args.items())), tuple(ro.get(o, o) for o in spec.get("outs", [])) + tuple(spec.get("emit", [])), extra)
 
 
 BACKENDS = ["mem", "lru1", "lru2", "disk"]
